@@ -3645,9 +3645,16 @@ static bool ts_query_cursor__first_in_progress_capture(
     }
 
     TSNode node = array_get(captures, state->consumed_capture_count)->node;
+    // (an empty node exactly at the start of the range does not precede it)
     if (
-      ts_node_end_byte(node) <= self->included_range.start_byte ||
-      point_lte(ts_node_end_point(node), self->included_range.start_point)
+      (
+        ts_node_end_byte(node) <= self->included_range.start_byte &&
+        ts_node_start_byte(node) < self->included_range.start_byte
+      ) ||
+      (
+        point_lte(ts_node_end_point(node), self->included_range.start_point) &&
+        point_lt(ts_node_start_point(node), self->included_range.start_point)
+      )
     ) {
       state->consumed_capture_count++;
       i--;
@@ -4804,9 +4811,17 @@ bool ts_query_cursor_next_capture(
 
       TSNode node = array_get(captures, state->consumed_capture_count)->node;
 
+      // An empty node that sits exactly at the start of the range does not
+      // precede it (with the default range this is a node at byte 0).
       bool node_precedes_range = (
-        ts_node_end_byte(node) <= self->included_range.start_byte ||
-        point_lte(ts_node_end_point(node), self->included_range.start_point)
+        (
+          ts_node_end_byte(node) <= self->included_range.start_byte &&
+          ts_node_start_byte(node) < self->included_range.start_byte
+        ) ||
+        (
+          point_lte(ts_node_end_point(node), self->included_range.start_point) &&
+          point_lt(ts_node_start_point(node), self->included_range.start_point)
+        )
       );
       bool node_follows_range = (
         ts_node_start_byte(node) >= self->included_range.end_byte ||
